@@ -123,11 +123,12 @@ const (
 	OpEditSlotsRaw     // the user writes a delete-slots value that is not a list of int32: it denotes no slots
 	OpRelabelPod       // pod a is relabelled by hand so that it stops matching the selector (or matches again); its owner reference stays
 	OpAddStrayPod      // somebody creates a pod named S-0<a> (a leading-zero spelling of ordinal a) carrying the set's labels
+	OpClaimRemove      // somebody deletes claim a outright (no pod uses it, or nobody cares): it is gone from the API
 	numOpKinds
 )
 
 var opNames = [...]string{"reconcile", "kubelet", "refreshAll", "refreshPod", "refreshSet", "editReplicas", "slotAdd", "slotRemove",
-	"editTemplate", "editPartition", "editMeta", "userDeletePod", "settle", "scaleInAt", "pause", "markDeleting", "restart", "editLimit", "editStrategy", "setRecreate", "setRemove", "addOrphanPod", "orphanPod", "claimTerminating", "editSlotsRaw", "relabelPod", "addStrayPod"}
+	"editTemplate", "editPartition", "editMeta", "userDeletePod", "settle", "scaleInAt", "pause", "markDeleting", "restart", "editLimit", "editStrategy", "setRecreate", "setRemove", "addOrphanPod", "orphanPod", "claimTerminating", "editSlotsRaw", "relabelPod", "addStrayPod", "claimRemove"}
 
 // Fault kinds for a reconcile op
 const (
@@ -434,6 +435,8 @@ type Sys struct {
 	Trace []func() string
 	// OnRecord is invoked after every reconcile (monitors)
 	OnRecord func(r *sim.Record, op *Op)
+	// RemovedClaims: claims the user (not the controller) deleted during the history
+	RemovedClaims map[string]bool
 	// Fault2Hit: the last reconcile's second same-reconcile fault was reached
 	Fault2Hit bool
 	// counters
@@ -835,6 +838,16 @@ func (s *Sys) envOp(k, a, b int) {
 			x.Annotations[helper.DeleteSlotsAnn] = val
 		})
 		s.logf("user: delete-slots=%s (not a list of int32: no slots)", val)
+	case OpClaimRemove:
+		if claims := c.PVCs(); len(claims) > 0 {
+			pvc := claims[abs(a)%len(claims)]
+			c.Remove(sim.GVRPVCs, pvc.Namespace, pvc.Name)
+			if s.RemovedClaims == nil {
+				s.RemovedClaims = map[string]bool{}
+			}
+			s.RemovedClaims[pvc.Name] = true
+			s.logf("user: claim %s deleted (gone)", pvc.Name)
+		}
 	case OpClaimTerminating:
 		if claims := c.PVCs(); len(claims) > 0 {
 			pvc := claims[abs(a)%len(claims)]
